@@ -136,18 +136,95 @@ Theorem presentation_rounding_error a e : Qabs (toQ (rescale a e) - toQ a) <= (1
 Proof. exact (rescale_error a e). Qed.
 Print Assumptions presentation_rounding_error.
 
-(* FULL CLAIM (C01, last sentence), not proved here:
-     for every document d with d_currency_rule d = false and at most N lines (N "ordinary-sized"),
-     calculate d = Totals t implies, for EVERY presented figure f of t (sum, discount, charge,
-     tax included, total, tax, total with tax, payable, advances, due, every category / rate base
-     and amount, and every line's sum / total),
-        Qabs (toQ (f t) - exact_f d) < unitQ (d_c d)
-     where exact_f d is the same figure computed in exact rational arithmetic (no rounding).
-   PROVED below (_partial): the figures sum, total, total with tax and payable of a PLAIN document:
-   'precise' rule, 1..99 plain lines (see plain_line), no document discounts / charges, no
-   externally supplied rounding; exact_sum = sum over the lines of price x quantity.
-   Missing: line and document discounts and charges, taxes (group / category amounts, included
-   taxes), currency conversions, sub-line breakdowns, advances and due amounts. *)
+(* ------------------------------------------------------------------------------------------ *)
+(* FULL CLAIM, last sentence: under 'precise' no presented total of an ordinary-sized document  *)
+(* is a full minor unit away from the unrounded exact value                                     *)
+(* ------------------------------------------------------------------------------------------ *)
+(* `exact d` is the specification Calc/Ideal.v with NO rounding anywhere.
+   The unrestricted statement is false (precise_error_bound_unrestricted_refuted above: rate x
+   quantity charges, exchange-rate conversions, breakdown prices).  It holds on `simple_doc d`:
+     'precise' rule; at least one line; no line has a breakdown; every item is priced in the
+     document's currency or has an alternative price in it (no exchange-rate conversion); line
+     discounts / charges are fixed amounts or percentages (with or without base) of at most 100%
+     either way, not rate x quantity; document discounts / charges likewise; every tax
+     percentage and surcharge lies between 0% and 100%.  Quantities, prices, amounts and bases are
+     arbitrary (any sign, any decimals); taxes may be included in prices, retained, carry
+     surcharges; any currency precision c.
+   The error is counted in eps c = half a unit of the (c+2)-th decimal = 1/200 minor unit:
+     e_line l   = 1 + 3 x (number of discount and charge rows of l)         (a line total)
+     e_sum ls   = sum of e_line                                              (the document sum)
+     b_drow d   = e_sum + 1                                                  (a document discount / charge row)
+     b_total1 d = e_sum + (#discounts x b_drow + 1) + (#charges x b_drow + 1)
+     b_cats d   = sum over the tax rows (lines, document discounts, document charges) of
+                  (number of tax combos of the row) x (bound of the row + 1)  +  number of combos
+     b_inc d    = b_cats + 1 when prices include a tax, else 0
+     b_total d  = b_total1 + b_inc;  b_tax d = 2 x b_cats;  b_twt d = b_total + b_tax + 1;
+     b_payable d = b_twt + 1
+   and every presented total is within  budget x eps + 1/2 minor unit  of the exact value; the
+   half unit is the presentation rounding.  "Ordinary-sized" = b_payable d < 100 (e.g. up to 9
+   single-rate taxed lines without rows: b_payable = 10 N + 5; untaxed: N + 5, up to 94 lines). *)
+Theorem precise_error_bound_budget d t : simple_doc d -> calculate d = Totals t ->
+  exists y, exact d = Some y /\
+    let c := d_c d in
+    let P := (1 # 2) * unitQ c in
+    Qabs (toQ (t_sum t) - i_sum y) <= e_sum (d_lines d) * eps c + P /\
+    Qabs (toQ (t_total t) - i_total y) <= b_total d * eps c + P /\
+    Qabs (toQ (t_tax t) - i_tax y) <= b_tax d * eps c + P /\
+    Qabs (toQ (t_twt t) - i_twt y) <= b_twt d * eps c + P /\
+    Qabs (toQ (t_payable t) - i_payable y) <= b_payable d * eps c + P.
+Proof. exact (IdealBoundProofs.precise_error_bound_budget d t). Qed.
+Print Assumptions precise_error_bound_budget.
+
+Theorem precise_error_bound d t : simple_doc d -> b_payable d < 100 -> calculate d = Totals t ->
+  exists y, exact d = Some y /\
+    Qabs (toQ (t_sum t) - i_sum y) < unitQ (d_c d) /\
+    Qabs (toQ (t_total t) - i_total y) < unitQ (d_c d) /\
+    Qabs (toQ (t_tax t) - i_tax y) < unitQ (d_c d) /\
+    Qabs (toQ (t_twt t) - i_twt y) < unitQ (d_c d) /\
+    Qabs (toQ (t_payable t) - i_payable y) < unitQ (d_c d).
+Proof. exact (IdealBoundProofs.precise_error_bound d t). Qed.
+Print Assumptions precise_error_bound.
+
+(* the underlying statement about the specification alone: with and without rounding *)
+Theorem ideal_close_to_exact d x : simple_doc d -> ideal d = Some x ->
+  exists y, exact d = Some y /\
+    let c := d_c d in
+    let P := (1 # 2) * unitQ c in
+    cl (e_sum (d_lines d) * eps c + P) (i_sum x) (i_sum y) /\
+    cl (b_total d * eps c + P) (i_total x) (i_total y) /\
+    cl (b_tax d * eps c + P) (i_tax x) (i_tax y) /\
+    cl (b_twt d * eps c + P) (i_twt x) (i_twt y) /\
+    cl (b_payable d * eps c + P) (i_payable x) (i_payable y).
+Proof. exact (spec_close d x). Qed.
+Print Assumptions ideal_close_to_exact.
+
+(* a line with a 10% discount and a fixed charge, a second line, a 5% document discount, a fixed
+   document charge, 21% tax on everything, a 50% advance: budget 76 < 100 *)
+Definition c01_simple_doc : doc :=
+  let vat := mkCombo [Byte.x56] [] [] (Some (mkA 21 2)) None false [] in
+  mkDoc 2 false [] 1
+   [mkLine (mkA 3 0) (mkItem (mkA 3333 4) None []) []
+           [mkLdc (mkA 0 0) (Some (mkA 10 2)) None None None] [mkLdc (mkA 125 3) None None None None] [vat];
+    mkLine (mkA 7 0) (mkItem (mkA 1005 3) None []) [] [] [] [vat]]
+   [mkDdc (mkA 0 0) (Some (mkA 5 2)) None [vat]] [mkDdc (mkA 100 2) None None []] []
+   [mkProw (mkA 0 0) (Some (mkA 50 2))] [] None.
+
+Example precise_error_bound_applies :
+  simple_doc c01_simple_doc /\ b_payable c01_simple_doc == 76 /\ b_payable c01_simple_doc < 100 /\
+  exists t y, calculate c01_simple_doc = Totals t /\ exact c01_simple_doc = Some y /\
+    t_total t = mkA 866 2 /\ i_total y == 86569145 # 10000000 /\
+    t_twt t = mkA 1026 2 /\ i_twt y == 10264866545 # 1000000000.
+Proof.
+  split; [|split; [vm_compute; reflexivity|split; [vm_compute; reflexivity|]]].
+  - unfold simple_doc, c01_simple_doc, simple_line, simple_row, simple_drow, unconverted, combo_ok, pct_ok, rate_ok.
+    cbn -[Qle Qabs toQ].
+    repeat (split || constructor); try discriminate; try (vm_compute; discriminate).
+  - eexists. eexists. split; [vm_compute; reflexivity|]. split; [vm_compute; reflexivity|].
+    repeat split.
+Qed.
+
+(* the earlier result for PLAIN documents (no discounts, charges, taxes), kept because its size
+   limit is slightly better there (99 lines instead of 94): *)
 Theorem precise_sum_error_bound_partial d : plain_doc d -> (length (d_lines d) <= 99)%nat ->
   exists t, calculate d = Totals t /\
     t_total t = t_sum t /\ t_twt t = t_sum t /\ t_payable t = t_sum t /\
